@@ -137,8 +137,10 @@ let apply_lres tag (r : lres) =
   | LOOF -> print_endline (tag ^ " OOF")
 let find_rule c name = rget !reg_state (n_of_int c) name
 let r_cache : cstate Stdlib.ref = Stdlib.ref (fun _ -> cnew None None O)
+let last_rsrc : str Stdlib.ref = Stdlib.ref []
 let run_r (p : res prog) : res =
   let (r, st') = run_cached !reg_state.epoch !r_cache p in r_cache := st'; r
+let new_src_r (s : str) = if s <> !last_rsrc then begin last_rsrc := s; r_cache := (fun _ -> cnew None None O) end
 
 let oracle = function 0 -> sh_id | 1 -> sh_rev | _ -> failwith "oracle"
 
@@ -146,8 +148,12 @@ let oracle = function 0 -> sh_id | 1 -> sh_rev | _ -> failwith "oracle"
    library does (C08 proves the answers equal the pure engine's); one cache state per GRAMMAR command and oracle *)
 let g_state : cstate array = [| (fun _ -> cnew None None O); (fun _ -> cnew None None O) |]
 let reset_g_state () = g_state.(0) <- (fun _ -> cnew None None O); g_state.(1) <- (fun _ -> cnew None None O)
+(* the model's caches are association lists: keep them small by starting afresh whenever the source string changes
+   (answers do not depend on the cache contents: C08) *)
+let last_src : str Stdlib.ref = Stdlib.ref []
 let run_c o (p : res prog) : res =
   let (r, st') = run_cached O g_state.(o) p in g_state.(o) <- st'; r
+let new_src_c (s : str) = if s <> !last_src then begin last_src := s; reset_g_state () end
 
 (* ---- cache scripts (C16) ---- *)
 let keqb (a : int) (b : int) = a = b
@@ -199,15 +205,19 @@ let () =
           | "GRAMMAR" -> g := read_grammar (); reset_g_state ()
           | "LPARSE" ->
             let o = next_int () in let r = next_int () in let i = next_int () in let s = read_str () in
+            new_src_c s;
             print_endline (pr_res (run_c o (lparse_p (oracle o) !g !fuel (ERef (n_of_int r)) s (nat_of_int i))))
           | "LEXPR" ->
             let o = next_int () in let i = next_int () in let s = read_str () in let e = read_expr () in
+            new_src_c s;
             print_endline (pr_res (run_c o (lparse_p (oracle o) !g !fuel e s (nat_of_int i))))
           | "PARSE" ->
             let o = next_int () in let r = next_int () in let i = next_int () in let s = read_str () in
+            new_src_c s;
             print_endline (pr_res (run_c o (parse_p (oracle o) !g !fuel (n_of_int r) s (nat_of_int i))))
           | "PALL" ->
             let o = next_int () in let r = next_int () in let s = read_str () in
+            new_src_c s;
             print_endline (pr_res (run_c o (parse_all_p (oracle o) !g !fuel (n_of_int r) s)))
           | "CACHE" -> print_endline (run_cache ())
           | "CORECLS" ->
@@ -223,6 +233,7 @@ let () =
           | "RPARSEC" ->  (* RPARSEC kind module class name i s : rule of a bundled class *)
             let kind = next_int () in let m = read_str () in let cn = read_str () in let nm = read_str () in
             let i = next_int () in let s = read_str () in
+            new_src_r s;
             (match cls_of bundled m cn with
              | None -> print_endline "NOCLASS"
              | Some c ->
@@ -263,6 +274,7 @@ let () =
           | "RDUMP" -> dump_reg (Some !reg_state)
           | "RPARSE" ->  (* RPARSE kind cls name i s *)
             let kind = next_int () in let c = next_int () in let nm = read_str () in let i = next_int () in let s = read_str () in
+            new_src_r s;
             (match find_rule c nm with
              | None -> print_endline "NORULE"
              | Some k ->
